@@ -85,6 +85,8 @@ def run(chk, repo, tier):
     P8 = chk.rule('P8', 'the running eta number advances for added and kept distributions and never for removed ones',
                   floor=3)
     C04b.run_p8(chk, P8, repo)
+    P9 = chk.rule('P9', 'record editing never drops a line break when it drops items', floor=2)
+    C04b.run_p9(chk, P9, repo)
 
     tm = repo.module(f'{NM}.records.theta_record')
     om = repo.module(f'{NM}.records.omega_record')
